@@ -13,7 +13,7 @@ def _cases(res):
 
 def bfs(R, maxdev, maxdepth=3, name=None):
     """every derivation within the deviation budget (exhaustive)"""
-    cfg = "INIT Init\nNEXT Next\nINVARIANT EmitCase\nCONSTANTS MaxDev = %d\n MaxDepth = %d\n" % (maxdev, maxdepth)
+    cfg = "INIT Init\nNEXT Next\nINVARIANT EmitCase\nCONSTANTS MaxDev = %d\n MaxDepth = %d\n StartSym = \"prog\"\n" % (maxdev, maxdepth)
     res = R.tlc("ShellGen", cfg, name=name or ("ShellGen-dev%d" % maxdev), timeout=3000)
     cases = _cases(res)
     if not cases:
@@ -23,7 +23,7 @@ def bfs(R, maxdev, maxdepth=3, name=None):
 
 def simulate(R, num, maxdev=10, maxdepth=4, workers=8, name=None):
     """random long derivations (TLC -simulate, seeded by VERIF_SEED); num per worker"""
-    cfg = "INIT Init\nNEXT Next\nINVARIANT EmitCase\nCONSTANTS MaxDev = %d\n MaxDepth = %d\n" % (maxdev, maxdepth)
+    cfg = "INIT Init\nNEXT Next\nINVARIANT EmitCase\nCONSTANTS MaxDev = %d\n MaxDepth = %d\n StartSym = \"prog\"\n" % (maxdev, maxdepth)
     res = R.tlc("ShellGen", cfg, simulate="num=%d" % num, depth=800, workers=workers,
                 name=name or "ShellGen-sim", timeout=3000)
     return _cases(res)
